@@ -4,7 +4,7 @@
    The model is of the REPAIRED code (fix: commits listed in known_findings.json); definitions
    with an `orig` flag keep the unchanged behaviour for the …_refuted witnesses.
    ext = IPv6HopByHop / IPv6Destination; ip6 = IPv6. *)
-From GP Require Import Base N6Lib Lip6Model Lip6Proofs Lip6Rt Lip6Rt2 Lip6Rt3 Lip6Idem.
+From GP Require Import Base N6Lib Lip6Model Lip6Proofs Lip6Rt Lip6Rt2 Lip6Rt3 Lip6Idem Lip6xModel Lip6xProofs.
 Open Scope Z_scope.
 
 (* ------------------------------------------------------------------ C19 *)
@@ -242,3 +242,64 @@ Qed.
 Example C01_ip6_nonvacuous : ip6_flow_panics ip6_fresh = false /\
   ip6_flow_panics (mkIp6 6 0 0 0 59 64 (repeat 1 17) [] None [] []) = true.
 Proof. split; reflexivity. Qed.
+
+(* ================================================================== IPv6Fragment, IPv6Routing *)
+(* Both are produced by decode functions into a fresh layer object (no DecodeFromBytes): C05 does
+   not apply.  Their renderers are the reflective ones (total). *)
+
+(* C19: the decode functions never panic *)
+Theorem C19_ip6x_no_panic :
+  (forall data, is_panic (fst (frag_decode data)) = false) /\
+  (forall data, bytes_ok data -> is_panic (fst (rtg_decode data)) = false).
+Proof. split; [exact frag_decode_no_panic|exact rtg_decode_no_panic]. Qed.
+Print Assumptions C19_ip6x_no_panic.
+
+(* C07: SerializeTo never panics and writes every octet it requested, for every layer value *)
+Theorem C07_ip6x_total_junk_free :
+  (forall f payload fx cs j1 j2, is_panic (fst (frag_serialize f payload fx cs j1)) = false /\
+     frag_serialize f payload fx cs j1 = frag_serialize f payload fx cs j2) /\
+  (forall r payload fx cs j1 j2, is_panic (fst (rtg_serialize r payload fx cs j1)) = false /\
+     rtg_serialize r payload fx cs j1 = rtg_serialize r payload fx cs j2).
+Proof. split; intros; rewrite ?frag_serialize_closed, ?rtg_serialize_closed; split; reflexivity. Qed.
+Print Assumptions C07_ip6x_total_junk_free.
+
+(* the unchanged IPv6Routing.SerializeTo left the reserved octets unwritten when Reserved is nil *)
+Theorem C07_ip6x_rtg_junk_orig_refuted : exists r j1 j2, rtg_serialize_orig r [] j1 <> rtg_serialize_orig r [] j2.
+Proof. exists (mkRtg 17 0 0 0 1 [] [] [] []), [], (repeat 170 8). vm_compute. discriminate. Qed.
+
+(* C06: every in-range value comes back from its serialized form, with the payload; the layer is not
+   modified by SerializeTo, so re-serializing the decoded value gives the same bytes *)
+Theorem C06_ip6x_roundtrip :
+  (forall f payload junk, frag_okb f = true ->
+     exists bytes, frag_serialize f payload true true junk = (Ok bytes, f) /\
+       frag_decode bytes = (Ok (mkFrag (f_next f) (f_res1 f) (f_offset f) (f_res2 f) (f_more f) (f_ident f) (firstn 8 bytes) payload), false) /\
+       forall junk', fst (frag_serialize (mkFrag (f_next f) (f_res1 f) (f_offset f) (f_res2 f) (f_more f) (f_ident f) (firstn 8 bytes) payload)
+                            payload true true junk') = Ok bytes) /\
+  (forall r payload junk, rtg_okb r = true ->
+     exists bytes r2, rtg_serialize r payload true true junk = (Ok bytes, r) /\
+       rtg_decode bytes = (Ok r2, false) /\
+       r_next r2 = r_next r /\ r_type r2 = r_type r /\ r_segleft r2 = r_segleft r /\ r_reserved r2 = r_reserved r /\
+       r_ips r2 = r_ips r /\ r_payload r2 = payload /\
+       forall junk', fst (rtg_serialize r2 payload true true junk') = Ok bytes).
+Proof.
+  split.
+  - intros f payload junk Hok. rewrite frag_serialize_closed. eexists. split; [reflexivity|].
+    rewrite (frag_roundtrip f payload Hok).
+    assert (H8 : firstn 8 (frag_bytes f ++ payload) = frag_bytes f).
+    { rewrite <- (frag_bytes_len f), firstn_app, Nat.sub_diag, firstn_all. cbn [firstn]. apply app_nil_r. }
+    rewrite H8. split; [reflexivity|]. intros junk'. rewrite frag_serialize_closed. reflexivity.
+  - intros r payload junk Hok. rewrite rtg_serialize_closed. eexists. eexists. split; [reflexivity|].
+    rewrite (rtg_roundtrip r payload Hok). split; [reflexivity|]. cbn [r_next r_type r_segleft r_reserved r_ips r_payload].
+    assert (Ht : r_type r = 0).
+    { unfold rtg_okb in Hok. repeat (apply andb_prop in Hok as [Hok ?]). lia. }
+    repeat split; try reflexivity; try (symmetry; exact Ht).
+    intros junk'. rewrite rtg_serialize_closed. cbn [fst]. f_equal. f_equal. unfold rtg_segs. cbn [r_next r_type r_segleft r_reserved r_ips]. rewrite Ht. reflexivity.
+Qed.
+Print Assumptions C06_ip6x_roundtrip.
+
+Example C06_ip6x_nonvacuous :
+  frag_okb (mkFrag 6 0 185 0 true 305419896 [] []) = true /\
+  rtg_okb (mkRtg 6 0 0 0 1 [0; 0; 0; 0] [repeat 1 16; repeat 2 16] [] []) = true /\
+  fst (rtg_serialize (mkRtg 6 0 0 0 1 [] [[10; 0; 0; 1]; [1; 2; 3]] [] []) [9] true true (repeat 170 64))
+  = Ok ([6; 4; 0; 1; 0; 0; 0; 0] ++ [0; 0; 0; 0; 0; 0; 0; 0; 0; 0; 255; 255; 10; 0; 0; 1] ++ repeat 0 16 ++ [9]).
+Proof. repeat split. Qed.
